@@ -566,6 +566,9 @@ impl Text {
             w.max("dictionary:source-files-read", d.files_read as u64);
             w.max("dictionary:format-placeholders", d.placeholders.len() as u64);
             w.max("dictionary:identifiers", d.camel.len() as u64);
+            w.max("dictionary:string-literals", d.literals.len() as u64);
+            w.max("dictionary:assembled-attributes", d.attr_literals.len() as u64);
+            w.max("dictionary:attributes-written-out-in-the-sources (with value variants)", d.n_snippets as u64);
         }
         let mut m = small_model(rng);
         let mut all: Vec<(String, String, Vec<String>)> = vec![]; // (decl kind, name, attrs)
@@ -577,6 +580,15 @@ impl Text {
                     *counter += 1;
                     if rng.chance(0.06) {
                         hostile_attr(rng, "")
+                    } else if rng.chance(0.08) {
+                        // an attribute assembled from the string literals of kiki's own sources (a magic
+                        // key the generator might react to), or a lint attribute
+                        let d = gtext::repo_dictionary();
+                        if !d.attr_literals.is_empty() && rng.chance(0.7) {
+                            d.pick_attr(rng).unwrap()
+                        } else {
+                            format!("#[allow({})]", rng.pick_str(gtext::LINT_NAMES))
+                        }
                     } else if rng.chance(0.2) {
                         realistic_attr(rng, &format!("kvm{}x{}x", n, counter))
                     } else {
@@ -835,7 +847,14 @@ impl Text {
                     if run == 2 {
                         let _ = kside::generate(&t[i], u64::MAX);
                     }
-                    d[i] = digest_of(&kside::generate(&t[i], u64::MAX).0);
+                    // the text handed over as a sub-slice that starts `run` bytes into a buffer: every
+                    // alignment of the argument modulo 8 (a fresh String is always 16-byte aligned)
+                    let mut buf = String::with_capacity(t[i].len() + 16);
+                    buf.push_str(&"#".repeat(run));
+                    buf.push_str(&t[i]);
+                    let view: &str = &buf[run..];
+                    debug_assert_eq!(view.as_ptr() as usize % 8, (buf.as_ptr() as usize + run) % 8);
+                    d[i] = digest_of(&kside::generate(view, u64::MAX).0);
                 }
                 (sig, d)
             });
@@ -1185,7 +1204,7 @@ impl Engine for Text {
         match prop {
             "C12" => "inputs: generated grammars whose struct / enum / terminal declarations carry 0-4 outer attributes each; attribute texts are random over an alphabet of everything but LF (nested brackets of the three kinds, //, #, $, quotes, TAB, CR, U+00A0, U+2028, U+FEFF, 2/3/4-byte characters at any offset incl. directly before the closing bracket, empty #[]), each with a unique marker, followed in the source by nothing / spaces / comments / newlines. One evaluation = one declaration: the lines immediately above `pub struct|enum <Name>` in the emitted text must be byte-for-byte the declaration's attributes in order, no attribute line may precede them, and every marked attribute must occur in the whole emitted text exactly as often as in the source (15 % of the non-empty lists repeat one attribute, directly after itself or elsewhere). Attribute texts also nest brackets 100-70 000 deep (6 %) and draw 6 % of their atoms from a dictionary harvested at run time from kiki's own sources (format placeholders like {node_enum_name}, identifiers). Distinct non-trivial = distinct attribute texts longer than 4 bytes.".into(),
             "C13" => "inputs: generated grammars whose terminals have random payload types from the Kiki type grammar (unit, paths of 1-6 segments, generics nested to depth 8 with 1-4 arguments, unit as argument) written with random whitespace / comments between their tokens. One evaluation = one emitted module: at every use site (terminal enum variant, every struct / variant field of that terminal, node enum variant, try_into_* return type) the emitted type, re-tokenised, must equal the declared token sequence. Distinct non-trivial = distinct type expressions.".into(),
-            "C14" => "inputs: sources of every class (accepted grammars incl. the repository examples, conflicting grammars, every validation error, parse errors, lexical errors). One evaluation = one call of generate; every input is run 8 times in one process on 8 fresh threads (fresh SipHash keys per HashMap; odd runs go through the batch of 16 inputs backwards and one run calls every input twice in a row, so a dependence on earlier calls is visible), 4 more times on 4 threads running at the same time (each starting at another offset of the batch, one of them also calling get_grammar_hash: state shared between concurrent calls) and once in each of 2 further processes; the bytes of Ok results / the {:?} of errors (positions and attached automaton included) must be identical. A canary HashSet iterated in every run records how many distinct hash orders were actually sampled. Distinct non-trivial = distinct inputs that reach the automaton construction (Ok or TableConflict).".into(),
+            "C14" => "inputs: sources of every class (accepted grammars incl. the repository examples, conflicting grammars, every validation error, parse errors, lexical errors). One evaluation = one call of generate; every input is run 8 times in one process on 8 fresh threads (fresh SipHash keys per HashMap; run k passes the text as a slice that starts k bytes into a buffer, i.e. at every alignment modulo 8; odd runs go through the batch of 16 inputs backwards and one run calls every input twice in a row, so a dependence on earlier calls is visible), 4 more times on 4 threads running at the same time (each starting at another offset of the batch, one of them also calling get_grammar_hash: state shared between concurrent calls) and once in each of 2 further processes; the bytes of Ok results / the {:?} of errors (positions and attached automaton included) must be identical. A canary HashSet iterated in every run records how many distinct hash orders were actually sampled. Distinct non-trivial = distinct inputs that reach the automaton construction (Ok or TableConflict).".into(),
             "C15" => "inputs: (a) accepted sources with / without trailing newline, CRLF, non-ASCII, leading comment up to 60 KB: the emitted text must start with a // block containing `// @sha256 ` + the SHA-256 of the source computed by an independent implementation, get_grammar_hash must return exactly that digest, and the build-script freshness test (stored digest == digest of current file) must accept the same text and reject a text differing in one byte; (b) header-like texts assembled from fragments (//, `// @sha256 `, repeated prefixes, CR, CRLF, blank and non-comment lines, Unicode): get_grammar_hash vs the rule in the property statement. One evaluation = one text. Distinct non-trivial = distinct texts.".into(),
             _ => "inputs: sources of every class (accepted, conflicting, every validation error, parse errors, lexical errors - there only the text before the offending lexeme is re-laid-out), each re-joined up to 6 times from the reference lexer's tokens with random separators: nothing where legal, any Unicode whitespace, LF / CRLF, // comments with arbitrary content, comment at the end without newline, everything on one line; every 211th source additionally gets one HUGE run (10^4 .. 10^6 comment lines, blank lines, spaces ...) inserted in one gap, run in a child process; validity of the re-layout (same kinds and texts) is re-checked with the reference lexer. One evaluation = one (source, re-layout) pair: Ok outputs must be identical outside the `// @sha256` line, errors identical after mapping every byte position through the token-start map. Distinct non-trivial = distinct sources with at least one re-layout.".into(),
         }
